@@ -25,3 +25,11 @@ func (r *Responder) VerifSetTransport(c net.PacketConn) { r.transport = c }
 func (r *Responder) VerifDNSRespToUDPResp(resp *dns.Message, response []byte) ([]byte, error) {
 	return r.dnsRespToUDPResp(resp, response)
 }
+
+// VerifMaxUDPPayload is the size limit the responder applies to the requester's EDNS payload size and to its own responses.
+func (r *Responder) VerifMaxUDPPayload() int { return r.maxUDPPayload }
+
+// VerifCraftResponse exposes craftResponse (Noise N: read the handshake message, answer under the returned cipher state).
+func (r *Responder) VerifCraftResponse(msg []byte, processMsg func([]byte) ([]byte, error)) ([]byte, error) {
+	return r.craftResponse(msg, processMsg)
+}
